@@ -279,6 +279,9 @@ impl Model {
                     m.bind(*a, *b, *l);
                 }
                 Op::Put(v, d) => m.put(*v, &d.bytes()),
+                Op::Data(v) => {
+                    m.data(*v);
+                }
                 _ => return None,
             }
         }
